@@ -1117,6 +1117,49 @@ def r5_never_escapes(run):
                      '%s raises %s' % (_site_text(chain[0][1]), cls), where=chain[0][0], witness=['%s %s' % w for w in chain])
         if not summ:
             run.ok('%s: the default Exception handler has an empty escape set of its own' % tag, f.loc(), f.name)
+        # the exception OBJECT is user data: converting it to text runs its class's __str__/__repr__/__format__,
+        # which can raise (the traceback module guards that; str()/format()/f-strings do not)
+        errn = param_at(f, 3, 'error') if len(f.params()) > 3 else None
+        if errn:
+            par = {}
+            for x in ast.walk(f.node):
+                for ch in ast.iter_child_nodes(x):
+                    par[id(ch)] = x
+
+            def protected(n):
+                cur = n
+                while id(cur) in par:
+                    up = par[id(cur)]
+                    if isinstance(up, ast.Try) and any(cur is b for b in up.body):
+                        for h in up.handlers:
+                            if h.type is None or (isinstance(h.type, ast.Name) and h.type.id in ('Exception', 'BaseException')):
+                                return True
+                    cur = up
+                return False
+
+            def mentions(e):
+                return any(is_name(x, errn) for x in ast.walk(e))
+
+            convs = []
+            for x in walk_self(f.node):
+                if isinstance(x, ast.Call) and isinstance(x.func, ast.Name) and x.func.id in ('str', 'repr', 'format', 'ascii', 'bytes') \
+                        and x.args and is_name(x.args[0], errn):
+                    convs.append(x)
+                elif isinstance(x, ast.Call) and isinstance(x.func, ast.Attribute) and x.func.attr in ('format', 'format_map') \
+                        and any(is_name(a, errn) for a in list(x.args) + [k.value for k in x.keywords]):
+                    convs.append(x)
+                elif isinstance(x, ast.JoinedStr) and any(isinstance(v, ast.FormattedValue) and is_name(v.value, errn) for v in x.values):
+                    convs.append(x)
+                elif isinstance(x, ast.BinOp) and isinstance(x.op, ast.Mod) and (is_name(x.right, errn) or (
+                        isinstance(x.right, ast.Tuple) and any(is_name(e, errn) for e in x.right.elts))):
+                    convs.append(x)
+            for x in convs:
+                run.check(protected(x), '%s: the default Exception handler does not convert the caught exception object to text outside a '
+                          'try/except Exception (its __str__/__repr__ is user code)' % tag, f, x,
+                          runtime_witness='a responder raises an exception whose __str__ raises: the conversion escapes the handler of last '
+                                          'resort and the error reaches the WSGI/ASGI server instead of a composed 500')
+            if not convs:
+                run.ok('%s: the default Exception handler never converts the caught exception object to text' % tag, f.loc(), f.name)
 
 
 def _class_status_code(p, cls) -> Optional[int]:
